@@ -16,9 +16,21 @@ code -> spec : what came back (index arrays as returned; each reported separatio
                judged call by call by HtmMatchTrace.tla against the matcher state p2 alone.  Depth,
                flavour, layout, concretisation and history are NOT in the record: the specification
                says the result does not depend on them, so any dependence is rejected where it deviates.
+histories    : a life may contain Overwrite events (TLC enumerates them): the caller overwrites, in place, the
+               arrays the Matcher was built from - in every representation (native C-contiguous f8, strided,
+               negative stride, '>f8', exactly representable f4, list); every later call is still judged
+               against the ORIGINAL point set (the matcher is a snapshot).  The ra/dec/radius arguments of
+               the calls of a life are slices of one work buffer that is refilled and scribbled over
+               between calls, and the arrays a call returned are read again when the life is over.
+exact ties   : `ident` (a field of the case record) says equal lattice points are handed over bit-identically;
+               then they are zero apart and must match at radius 0 too.  Radii that tie with a pair are
+               snapped to the separation the code itself reports for that pair (bit-exact tie, same abstract
+               radius); every call with a positive limit is accompanied by the unlimited call on the same
+               object and inputs, and TLC demands "first k of every group of the unlimited answer".
 off lattice  : for seeded generic point sets (uniform, clustered caps, poles, seam, duplicates) only
                relations between two implementation outputs are compared (depth d = depth d', Matcher =
-               one-shot, file = memory, limited = prefix of unlimited); no oracle exists there.
+               one-shot, file = memory, limited = prefix of unlimited - also with radii taken from
+               returned separations and radius 0 on coincident points); no oracle exists there.
 Python never judges a lattice result; it maps abstract <-> concrete and records.
 """
 import json
@@ -44,23 +56,27 @@ MIN_RADIUS = F(1, 10 ** 6)        # the statement's radii: 0, and 1e-6 .. 180 de
 ALL_DEPTHS = list(range(1, 14))
 FLAVOURS = ["matcher", "oneshot"]
 
-def _job(name, scope, n2, n1, ncalls, perpoint, kmode, variants, num=None):
-    return dict(name=name, consts=dict(Scope=scope, MaxN2=n2, MaxN1=n1, MaxCalls=ncalls, PerPoint=perpoint),
+def _job(name, scope, n2, n1, ncalls, perpoint, kmode, variants, num=None, ow=0):
+    return dict(name=name, consts=dict(Scope=scope, MaxN2=n2, MaxN1=n1, MaxCalls=ncalls, PerPoint=perpoint, MaxOw=ow),
                 kmode=kmode, variants=variants, num=num)
 
 
 TIERS = {
     "quick": dict(
-        mech=[dict(Scope="q", MaxN2=2, MaxN1=2, MaxCalls=1, PerPoint=False)],
+        mech=[dict(Scope="q", MaxN2=2, MaxN1=2, MaxCalls=1, PerPoint=False, MaxOw=0),
+              dict(Scope="h", MaxN2=2, MaxN1=1, MaxCalls=1, PerPoint=True, MaxOw=1)],
         jobs=[_job("sweep", "q", 2, 2, 1, False, "sweep", 2), _job("micro", "m", 2, 1, 1, False, "sweep", 2),
-              _job("hist", "h", 2, 1, 2, True, "each", 1), _job("sim", "s", 6, 4, 3, True, "each", 2, num=250)],
+              _job("hist", "h", 2, 1, 2, True, "each", 1), _job("overwrite", "h", 2, 1, 1, True, "each", 3, ow=1),
+              _job("sim", "s", 6, 4, 3, True, "each", 2, num=250, ow=1)],
         depths=[1, 4, 8, 13], seeded=900, seeded_n=6, seeded_variants=2, off=150, off_n=40, trixel_budget=6e4),
     "thorough": dict(
-        mech=[dict(Scope="t", MaxN2=2, MaxN1=1, MaxCalls=1, PerPoint=False),
-              dict(Scope="q", MaxN2=2, MaxN1=2, MaxCalls=1, PerPoint=True)],
+        mech=[dict(Scope="t", MaxN2=2, MaxN1=1, MaxCalls=1, PerPoint=False, MaxOw=0),
+              dict(Scope="q", MaxN2=2, MaxN1=2, MaxCalls=1, PerPoint=True, MaxOw=0),
+              dict(Scope="h", MaxN2=2, MaxN1=1, MaxCalls=2, PerPoint=True, MaxOw=1)],
         jobs=[_job("sweep", "t", 2, 1, 1, False, "sweep", 2), _job("sweep_perpoint", "q", 2, 2, 1, True, "sweep", 2),
               _job("micro", "m", 3, 1, 1, False, "sweep", 2), _job("hist", "h", 2, 1, 2, True, "each", 2),
-              _job("hist3", "h", 1, 1, 3, True, "each", 1), _job("sim", "s", 6, 4, 4, True, "each", 2, num=10000)],
+              _job("hist3", "h", 1, 1, 3, True, "each", 1), _job("overwrite", "h", 2, 1, 2, True, "each", 1, ow=1),
+              _job("sim", "s", 6, 4, 4, True, "each", 2, num=10000, ow=1)],
         depths=ALL_DEPTHS, seeded=20000, seeded_n=24, seeded_variants=2, off=4000, off_n=150, trixel_budget=2e5),
 }
 
@@ -71,13 +87,24 @@ SYMS = [((0, 1, 2), (1, 1, 1)), ((1, 2, 0), (1, 1, 1)), ((2, 0, 1), (1, -1, 1)),
 
 # ---------------------------------------------------------------------------------
 # abstract -> concrete
+def is_call(ev):
+    return ev.get("op", "call") == "call"
+
+
 def life_calls(life):
-    """exported lives carry 'ks' (the maxmatch values a call is made with); expand to one call per k"""
+    """the match calls of a life (its history may also hold overwrite events); exported lives carry 'ks' (the
+    maxmatch values a call is made with): expand to one call per k"""
     out = []
     for c in life["calls"]:
+        if not is_call(c):
+            continue
         for k in (c["ks"] if "ks" in c else [c["k"]]):
             out.append({"p1": c["p1"], "rad": c["rad"], "k": int(k)})
     return out
+
+
+def has_overwrite(life):
+    return any(not is_call(ev) for ev in life["calls"])
 
 
 def allowed_eps(life):
@@ -85,8 +112,8 @@ def allowed_eps(life):
     and the lexicographic arithmetic of HtmSphere.tla is valid"""
     if life["kind"] != "gc":
         return [None]
-    maxb = max([abs(p[1]) for p in life["p2"]] + [abs(p[1]) for c in life["calls"] for p in c["p1"]] + [0])
-    rads = [r for c in life["calls"] for r in c["rad"]]
+    maxb = max([abs(p[1]) for p in life["p2"]] + [abs(p[1]) for c in life["calls"] for p in c.get("p1", c.get("buf"))] + [0])
+    rads = [r for c in life["calls"] if is_call(c) for r in c["rad"]]
     maxh = max([abs(r[1]) for r in rads] + [0])
     out = []
     for name, eps in sorted(hl.EPS.items(), key=lambda kv: kv[1]):
@@ -109,6 +136,9 @@ def life_cost(life, eps, depth):
     return tot
 
 
+LAYOUTS = list(hl.LAYOUTS) + ["f4"]      # f4: only where every value is exactly a float32 (else contiguous f8)
+
+
 def plan_variants(life, lid, seed, T, nvariants):
     """the concretisations one life is executed under - deterministic in (seed, life id)"""
     rng = random.Random((seed * 1000003 + lid) * 7919 + 17)
@@ -117,18 +147,24 @@ def plan_variants(life, lid, seed, T, nvariants):
         raise MachineryError("life outside the quantifier under every eps: %s" % json.dumps(life)[:300])
     if life.get("eps_hint") == "smallest":          # micro-degree lives: bind the smallest admissible eps
         eps_names = eps_names[:1]
+    ow = has_overwrite(life)
     out = []
     for v in range(nvariants):
         en = eps_names[(lid + v * 3 + seed) % len(eps_names)]
         eps = hl.EPS[en] if en else None
         depths = [d for d in T["depths"] if life_cost(life, eps, d) <= T["trixel_budget"]] or [1]
         var = {"eps": en, "depth": depths[(lid * 5 + v * 7 + seed) % len(depths)],
-               "flavour": FLAVOURS[(lid + v + seed) % 2],
-               "layout": hl.LAYOUTS[(lid // 2 + 2 * v + seed) % len(hl.LAYOUTS)],
-               "pfile": rng.choice([0, 0, 3, 10]) / 10.0, "vseed": rng.randrange(1 << 30)}
+               # the caller overwriting its arrays only concerns an object that outlives the call
+               "flavour": "matcher" if ow else FLAVOURS[(lid + v + seed) % 2],
+               "layout": LAYOUTS[(lid + v + seed) % len(LAYOUTS)] if ow else LAYOUTS[(lid // 2 + 2 * v + seed) % len(LAYOUTS)],
+               "pfile": rng.choice([0, 0, 3, 10]) / 10.0, "vseed": rng.randrange(1 << 30),
+               # snap: a radius that ties with a pair is replaced by the separation the code itself reports for that pair
+               # (a bit-exact tie); reuse: the ra/dec/radius arrays of the calls are one work buffer, overwritten in place
+               "snap": (lid + v + seed) % 3 != 0, "reuse": (lid // 3 + v + seed) % 2 == 0}
         if life["kind"] == "gc":
             var["circle"] = (lid + 3 * v + seed) % len(hl.CIRCLES)
-            var["polelon"] = rng.randrange(0, 3)
+            # ident: equal lattice points must be bit-identical coordinates - the pole keeps ONE longitude
+            var["polelon"] = 0 if life.get("ident", True) else 1 + rng.randrange(0, 2)
         else:
             var["sym"] = (lid + 3 * v + seed) % len(SYMS)
         out.append(var)
@@ -175,6 +211,32 @@ def _ints(a):
     return [int(x) for x in np.asarray(a).ravel()]
 
 
+def _f4_exact(values):
+    return all(float(np.float32(x)) == float(x) for x in values)
+
+
+def make_layout(values, how):
+    """the values in one of the representations the callers use; returns (object handed to esutil, writer) where
+    writer(new_values) overwrites the SAME object in place"""
+    if how == "f4":
+        how = "f4!" if _f4_exact(values) else "contig"
+    if how == "f4!":
+        a = np.array(values, dtype="f4")
+    elif how == "list":
+        a = [float(x) for x in values]
+
+        def wlist(new):
+            for i, x in enumerate(new):
+                a[i] = float(x)
+        return a, wlist
+    else:
+        a = hl.layout(values, how)
+
+    def warr(new):
+        a[...] = np.asarray(new, dtype="f8")
+    return a, warr
+
+
 def _mem_result(res):
     if not (isinstance(res, tuple) and len(res) == 3):
         raise TypeError("match returned %s" % type(res).__name__)
@@ -195,41 +257,75 @@ def raw_match(flavour, depth, obj, a1, a2, rad, k, path):
     return H.HTM(depth).match(a1[0], a1[1], a2[0], a2[1], rad, **kw)
 
 
-def observe_call(flavour, depth, obj, a1, a2, rad, k, use_file):
-    """-> raw observation: err, via, m1, m2, dd (floats), count, rerr, mem1, mem2"""
+def observe_call(flavour, depth, obj, a1, a2, rad, k, use_file, keep):
+    """-> raw observation: err, via, m1, m2, dd (floats), count, rerr, mem1, mem2, hasall, all1, all2.
+    keep: list that receives (returned arrays, their content at return time) - looked at again when the life is over"""
     import esutil.htm as H
     o = {"err": "none", "via": "file" if use_file else "mem", "m1": [], "m2": [], "dd": [], "count": -1,
-         "rerr": "none", "mem1": [], "mem2": []}
+         "rerr": "none", "mem1": [], "mem2": [], "hasall": False, "all1": [], "all2": []}
     try:
         if not use_file:
-            o["m1"], o["m2"], o["dd"] = _mem_result(raw_match(flavour, depth, obj, a1, a2, rad, k, None))
-            return o
-        path = _tmpfile("pairs")          # deliberately re-used: an earlier pair file is usually still there
-        cnt = raw_match(flavour, depth, obj, a1, a2, rad, k, path)
-        o["count"] = int(cnt)
-        try:
-            data = H.read_pairs(path)
-            o["m1"], o["m2"], o["dd"] = _ints(data["i1"]), _ints(data["i2"]), [float(x) for x in data["d12"]]
-        except Exception as e:  # noqa
-            o["rerr"] = type(e).__name__
-        o["mem1"], o["mem2"], _ = _mem_result(raw_match(flavour, depth, obj, a1, a2, rad, k, None))
+            res = raw_match(flavour, depth, obj, a1, a2, rad, k, None)
+            o["m1"], o["m2"], o["dd"] = _mem_result(res)
+            keep.append((res, (list(o["m1"]), list(o["m2"]), list(o["dd"]))))
+        else:
+            path = _tmpfile("pairs")          # deliberately re-used: an earlier pair file is usually still there
+            cnt = raw_match(flavour, depth, obj, a1, a2, rad, k, path)
+            o["count"] = int(cnt)
+            try:
+                data = H.read_pairs(path)
+                o["m1"], o["m2"], o["dd"] = _ints(data["i1"]), _ints(data["i2"]), [float(x) for x in data["d12"]]
+            except Exception as e:  # noqa
+                o["rerr"] = type(e).__name__
+            o["mem1"], o["mem2"], _ = _mem_result(raw_match(flavour, depth, obj, a1, a2, rad, k, None))
+        if k > 0:
+            # the same object, the same inputs, no limit: what "the k closest pairs of each group" refers to
+            o["all1"], o["all2"], _ = _mem_result(raw_match(flavour, depth, obj, a1, a2, rad, 0, None))
+            o["hasall"] = True
     except Exception as e:  # noqa
         o["err"] = type(e).__name__
         o["msg"] = str(e)[:200]
     return o
 
 
+def snap_radii(flavour, depth, obj, a1, a2, rr, n1):
+    """radii that tie with a pair (to 1e-9 degree; every other pair of a lattice case is >= 5e-8 degree away) are
+    replaced by the separation the code itself reports for such a pair, so that the tie is bit-exact.  The values
+    stay concretisations of the same abstract radii; a radius of exactly 0 and radii that would leave [1e-6, 180]
+    are left alone.  Uses only outputs of the code under test - no oracle."""
+    tol = 1e-9
+    per = len(rr) > 1
+    wide = [min(r + 2 * tol, 180.0) for r in rr]
+    try:
+        m1, m2, dd = _mem_result(raw_match(flavour, depth, obj, a1, a2, wide if per else wide[0], 0, None))
+    except Exception:  # noqa
+        return rr, 0
+    out, n = list(rr), 0
+    for t in range(len(rr)):
+        if rr[t] == 0.0:
+            continue
+        near = [x for i, x in zip(m1, dd) if (i == t or not per) and abs(x - rr[t]) <= tol]
+        if near:
+            x = max(near)
+            if 1e-6 <= x <= 180.0 and x != rr[t]:
+                out[t] = x
+                n += 1
+    return out, n
+
+
 def run_life(life, var):
-    """execute one life under one concretisation -> (list of projected observations, frame_ok, raw floats)"""
+    """execute one life under one concretisation -> (observations of its calls, frame_ok, notes)"""
     import esutil.htm as H
     kind = life["kind"]
     eps = hl.EPS[var["eps"]] if kind == "gc" else None
     rng = random.Random(var["vseed"])
     lay = var["layout"]
     ra2, dec2 = concretise(kind, life["p2"], var, 2)
-    a2 = (hl.layout(ra2, lay), hl.layout(dec2, lay))
+    (b2ra, w2ra), (b2dec, w2dec) = make_layout(ra2, lay), make_layout(dec2, lay)
+    a2 = (b2ra, b2dec)
     snaps = [hl.snapshot(a2[0]), hl.snapshot(a2[1])]
-    obj, obs, frame_ok = None, [], True
+    obj, obs, frame_ok, keep = None, [], True, []
+    notes = {"snapped": 0, "overwrites": 0}
     new_err = "none"
     try:
         os.unlink(_tmpfile("pairs"))      # one pair file per life, re-used by its calls (an earlier file is then in the way)
@@ -240,26 +336,57 @@ def run_life(life, var):
             obj = H.Matcher(var["depth"], a2[0], a2[1])
         except Exception as e:  # noqa
             new_err = type(e).__name__
+    work = None                                    # (ra, dec, rad) work buffers shared by the calls of the life
+    if var.get("reuse"):
+        nmax = max(len(c["p1"]) for c in life["calls"] if is_call(c))
+        work = [make_layout([0.0] * (2 * nmax), "contig")[0] for _ in range(3)]
     for c0 in life["calls"]:
+        if not is_call(c0):
+            # the caller overwrites, in place, the arrays the matcher was built from.  A reusable Matcher is a
+            # snapshot; the one-shot method gets the original content back before its next call.
+            nra, ndec = concretise(kind, c0["buf"], var, 2)
+            w2ra(nra)
+            w2dec(ndec)
+            notes["overwrites"] += 1
+            if var["flavour"] != "matcher":
+                w2ra(ra2)
+                w2dec(dec2)
+            snaps = [hl.snapshot(a2[0]), hl.snapshot(a2[1])]
+            continue
         ra1, dec1 = concretise(kind, c0["p1"], var, 1)
-        a1 = (hl.layout(ra1, lay), hl.layout(dec1, lay))
         rr = concrete_radius(kind, c0["rad"], var)
+        n1 = len(ra1)
+        if work is not None and lay in ("contig", "strided"):
+            # slices of one work buffer, refilled in place for every call (strided: every second element)
+            step = 2 if lay == "strided" and 2 * n1 - 1 <= len(work[0]) else 1
+            a1 = (work[0][:step * n1:step], work[1][:step * n1:step])
+            a1[0][...] = ra1
+            a1[1][...] = dec1
+        else:
+            a1 = (make_layout(ra1, lay)[0], make_layout(dec1, lay)[0])
+        if var.get("snap") and new_err == "none":
+            rr, ns = snap_radii(var["flavour"], var["depth"], obj, a1, a2, rr, n1)
+            notes["snapped"] += ns
         for k in (c0["ks"] if "ks" in c0 else [c0["k"]]):
             if len(rr) == 1:
-                rad = rr[0] if rng.random() < 0.7 else hl.layout(rr, lay)
+                rad = rr[0] if rng.random() < 0.7 else make_layout(rr, lay)[0]
+            elif work is not None and lay == "contig":
+                rad = work[2][:n1]
+                rad[...] = rr
             else:
-                rad = hl.layout(rr, lay)
+                rad = make_layout(rr, lay)[0]
             s1 = [hl.snapshot(a1[0]), hl.snapshot(a1[1]), hl.snapshot(rad)]
             use_file = rng.random() < var["pfile"]
             if new_err != "none":
-                o = {"err": new_err, "via": "mem", "m1": [], "m2": [], "dd": [], "count": -1, "rerr": "none", "mem1": [], "mem2": []}
+                o = {"err": new_err, "via": "mem", "m1": [], "m2": [], "dd": [], "count": -1, "rerr": "none", "mem1": [],
+                     "mem2": [], "hasall": False, "all1": [], "all2": []}
             else:
-                o = observe_call(var["flavour"], var["depth"], obj, a1, a2, rad, int(k), use_file)
+                o = observe_call(var["flavour"], var["depth"], obj, a1, a2, rad, int(k), use_file, keep)
             if s1 != [hl.snapshot(a1[0]), hl.snapshot(a1[1]), hl.snapshot(rad)] or \
                     snaps != [hl.snapshot(a2[0]), hl.snapshot(a2[1])]:
                 frame_ok = False
-            cap = len(ra1) * len(ra2) + 1     # more entries than distinct pairs exist: already malformed, keep the record small
-            for key in ("m1", "m2", "dd", "mem1", "mem2"):
+            cap = n1 * len(ra2) + 1     # more entries than distinct pairs exist: already malformed, keep the record small
+            for key in ("m1", "m2", "dd", "mem1", "mem2", "all1", "all2"):
                 del o[key][cap:]
             o["d"] = []
             o["dev"] = []
@@ -268,18 +395,32 @@ def run_life(life, var):
                 o["d"].append({"on": bool(pj["on"]), "v": [int(pj["v"][0]), int(pj["v"][1])]})
                 o["dev"].append(None if pj["on"] else [x.hex() if x == x else "nan", pj.get("dev")])
             obs.append(o)
-    return obs, frame_ok
+        if work is not None:
+            for w in work:                       # the caller moves on: the work buffers now hold something else
+                w[...] = 123.456
+    # results handed out earlier must not have been touched by later calls (or by the overwriting above)
+    stable = True
+    for res, then in keep:
+        try:
+            now = _mem_result(res)
+        except Exception:  # noqa
+            now = None
+        if now is None or (now[0], now[1]) != (then[0], then[1]) or \
+                [x.hex() for x in now[2]] != [x.hex() for x in then[2]]:
+            stable = False
+    notes["results_stable"] = stable
+    return obs, frame_ok, notes
 
 
-OBS_KEYS = ("err", "via", "m1", "m2", "d", "count", "rerr", "mem1", "mem2")
+OBS_KEYS = ("err", "via", "m1", "m2", "d", "count", "rerr", "mem1", "mem2", "hasall", "all1", "all2")
 
 
 def exec_variant(arg):
     lid, vi, life, var = arg
-    obs, frame_ok = run_life(life, var)
+    obs, frame_ok, notes = run_life(life, var)
     calls = life_calls(life)
     rec_calls = [dict(c, **{k: o[k] for k in OBS_KEYS}) for c, o in zip(calls, obs)]
-    return {"lid": lid, "vi": vi, "var": var, "calls": rec_calls, "frame_ok": frame_ok,
+    return {"lid": lid, "vi": vi, "var": var, "calls": rec_calls, "frame_ok": frame_ok, "notes": notes,
             "extra": [{"dev": o["dev"], "msg": o.get("msg")} for o in obs]}
 
 
@@ -314,7 +455,7 @@ def judge(ctx, lives, results, what, cap=4):
     uniq, members = {}, {}
     for r in results:
         life = lives[r["lid"]]
-        body = {"kind": life["kind"], "p2": life["p2"], "calls": r["calls"]}
+        body = {"kind": life["kind"], "p2": life["p2"], "ident": bool(life.get("ident", True)), "calls": r["calls"]}
         key = json.dumps(body, sort_keys=True)
         if key not in uniq:
             uniq[key] = dict(body, id=len(uniq) + 1)
@@ -347,6 +488,10 @@ def judge(ctx, lives, results, what, cap=4):
         if not r["frame_ok"]:
             ctx.violation("match|argument_modified", "a coordinate / radius argument was modified by the call",
                           {"kind": "lattice", "life": lives[r["lid"]], "var": r["var"], "call": 0, "clause": "argument_modified"})
+        if not r["notes"]["results_stable"]:
+            # two readings of the same returned arrays (exception (i) of BUILDING.md: relation between outputs)
+            ctx.violation("match|result_changed_by_later_call", "arrays returned by an earlier call changed during the life",
+                          {"kind": "lattice", "life": lives[r["lid"]], "var": r["var"], "call": 0, "clause": "result_changed"})
     return nrej
 
 
@@ -355,6 +500,10 @@ def describe(life, call, r, n):
     ex = r["extra"][n - 1]
     where = ("circle %s eps %s" % (hl.CIRCLES[var["circle"]], var["eps"])) if life["kind"] == "gc" else ("sym %d" % var["sym"])
     devs = [d for d in ex["dev"] if d]
+    if call.get("hasall"):
+        where += "; unlimited call on the same inputs gave m1=%s m2=%s" % (call["all1"][:12], call["all2"][:12])
+    if r["notes"].get("overwrites"):
+        where += "; caller overwrote the matcher's source arrays %d time(s)" % r["notes"]["overwrites"]
     return ("%s depth %d %s layout %s via %s maxmatch %d: returned m1=%s m2=%s%s%s" %
             (var["flavour"], var["depth"], where, var["layout"], call["via"], call["k"], call["m1"][:12], call["m2"][:12],
              (" separations off the lattice by %s" % [d[1] for d in devs][:4]) if devs else "",
@@ -439,6 +588,26 @@ def seeded_life(rng, nmax):
             life["eps_hint"] = "smallest"
     if len(life["calls"]) >= 2 and rng.random() < 0.5:
         life["calls"].append(dict(life["calls"][0]))       # the first call again, after the others
+    # equal points bit-identical?  (only a pole can be written in two ways)
+    haspole = life["kind"] == "gc" and any(p[0] in (90, 270) and p[1] == 0 for p in life["p2"])
+    life["ident"] = (not haspole) or rng.random() < 0.5
+    for c in life["calls"]:
+        c["op"] = "call"
+    if rng.random() < 0.35:
+        # the caller overwrites the arrays the matcher was built from, somewhere before a call
+        src = life["p2"]
+        pool2 = [c["p1"][0] for c in life["calls"]] + list(src)
+        how = rng.choice(["reverse", "const", "shuffle", "other"])
+        if how == "reverse":
+            nb = list(reversed(src))
+        elif how == "const":
+            nb = [rng.choice(pool2)] * len(src)
+        elif how == "shuffle":
+            nb = list(src)
+            rng.shuffle(nb)
+        else:
+            nb = [rng.choice(pool2) for _ in src]
+        life["calls"].insert(rng.randrange(0, len(life["calls"])), {"op": "ow", "buf": [list(q) for q in nb]})
     return life
 
 
@@ -590,6 +759,47 @@ def off_relations(case):
                 return bad("limited_not_prefix_of_unlimited", depth=depth, group=i)
         if set(gl) - set(ga):
             return bad("limited_not_prefix_of_unlimited", depth=depth)
+        # exact ties: radii taken from separations the code itself reported (and 0 for coincident points).  Whether a
+        # pair exactly on the radius is returned is open - but the limited answer must still be the first k of the
+        # unlimited answer of the same matcher, and bit-identical points are zero apart, hence within radius 0
+        tie = np.array(rad if rad.size > 1 else np.full(len(ra1), rad[0]), dtype="f8")
+        for i, full in ga.items():
+            x = full[(i + depth) % len(full)][1]
+            if x == 0.0 or 1e-6 <= x <= 180.0:
+                tie[i] = x
+        for kk in (1, k):
+            try:
+                ta = _mem_result(m.match(ra1, dec1, tie, maxmatch=0))
+                tl = _mem_result(m.match(ra1, dec1, tie, maxmatch=kk))
+                to = _mem_result(H.HTM(depth).match(ra1, dec1, ra2, dec2, tie, maxmatch=kk))
+            except Exception as e:  # noqa
+                return bad("unexpected_error", depth=depth, error="%s: %s" % (type(e).__name__, str(e)[:200]))
+            gta = _groups(*ta)
+            for name, lim_res in (("matcher", tl), ("oneshot", to)):
+                gtl = _groups(*lim_res)
+                for i, full in gta.items():
+                    got, want = gtl.get(i, []), full[:kk]
+                    if len(got) != len(want) or [x for _, x in got] != [x for _, x in want] or \
+                            not set(j for j, _ in got) <= set(j for j, _ in full):
+                        return bad("limited_not_prefix_of_unlimited_at_tie", depth=depth, group=i, flavour=name, limit=kk)
+                if set(gtl) - set(gta):
+                    return bad("limited_not_prefix_of_unlimited_at_tie", depth=depth, flavour=name, limit=kk)
+        zero = np.zeros(len(ra1))
+        try:
+            z0 = _mem_result(m.match(ra1, dec1, zero, maxmatch=0))
+            z1 = _mem_result(m.match(ra1, dec1, 0.0, maxmatch=1))
+        except Exception as e:  # noqa
+            return bad("unexpected_error", depth=depth, error="%s: %s" % (type(e).__name__, str(e)[:200]))
+        same = {(i, j) for i in range(len(ra1)) for j in np.nonzero((ra2 == ra1[i]) & (dec2 == dec1[i]))[0].tolist()}
+        if not same <= set(zip(z0[0], z0[1])):
+            return bad("identical_points_not_matched_at_radius_0", depth=depth, limit=0)
+        gz0, gz1 = _groups(*z0), _groups(*z1)
+        if any(len(gz1.get(i, [])) != 1 for i, _ in same):
+            return bad("identical_points_not_matched_at_radius_0", depth=depth, limit=1)
+        for i, got in gz1.items():
+            full = gz0.get(i, [])
+            if len(got) != 1 or not full or got[0][1] != full[0][1] or got[0][0] not in set(j for j, _ in full):
+                return bad("limited_not_prefix_of_unlimited_at_tie", depth=depth, group=i, flavour="matcher", limit=1)
         if ref is None:
             ref, refd = sorted(pa), dict(zip(pa, a[2]))
         else:
@@ -640,10 +850,10 @@ class _Stats:
         self.pairs = 0
         self.rejected = 0
         self.cover = {"depth": {}, "flavour": {}, "layout": {}, "via": {}, "eps": {}}
-        self.probe = None                 # (life, executed variant, call index) for the binding self-test
+        self.probe = {}                   # calls picked for the binding self-test (find_probe)
 
 
-def process(ctx, T, st, items, chunk=25000):
+def process(ctx, T, st, items, chunk=30000):
     """items: (origin, life, number of concretisations).  Execute the lives on the real code and let TLC judge
     what came back, chunk by chunk (memory)."""
     for c0 in range(0, len(items), chunk):
@@ -674,8 +884,8 @@ def process(ctx, T, st, items, chunk=25000):
             r = results[len(results) // 3]
             ctx.sample({"origin": name, "life": {"kind": lives[r["lid"]]["kind"], "p2": lives[r["lid"]]["p2"]}, "variant": r["var"],
                         "calls": [{k: c[k] for k in ("p1", "rad", "k", "via", "m1", "m2", "d")} for c in r["calls"][:2]]})
-        if st.probe is None:
-            st.probe = find_probe(lives, results)
+        if len(st.probe) < 2:
+            find_probe(lives, results, st.probe)
         st.rejected += judge(ctx, lives, results, "judge executed %s lives (HtmMatchTrace)" % name)
         ctx.log("%s: %d lives; %d executions, %d match calls so far" % (name, len(lives), st.executions, st.calls))
 
@@ -687,12 +897,13 @@ def _run(ctx, T, only):
         return ctx.tlc("HtmMatchMC.tla", what="mechanism refines property, state frozen [%s %s%s]" %
                        (kind, consts["Scope"], " per-point radii" if consts["PerPoint"] else ""),
                        cfg_text=cfg(constants=c, invariants=["MechRefines", "RefAccepted"], properties=["StateFrozen"]),
-                       workers=8, require=["AddP2", "New", "AddP1", "SelfCall", "ChooseRad", "ChooseK", "MechStep", "MechDone"],
+                       workers=8, require=["AddP2", "New", "AddP1", "SelfCall", "ChooseRad", "ChooseK", "MechStep", "MechDone"] +
+                       (["Overwrite"] if consts["MaxOw"] else []),
                        timeout=3000)
 
     def selftest(dev):
-        c = dict(Scope="q", MaxN2=2, MaxN1=2, MaxCalls=1, PerPoint=False, Kind="gc" if dev == "lossy_cover" else "rs",
-                 Deviation=dev, DoExport=False, KMode="each")
+        c = dict(Scope="q", MaxN2=2, MaxN1=2, MaxCalls=1, PerPoint=False, Kind="rs" if dev == "truncate_unsorted" else "gc",
+                 Deviation=dev, DoExport=False, KMode="each", MaxOw=0)
         r = ctx.tlc("HtmMatchMC.tla", what="self-test: deviation %s violates MechRefines" % dev,
                     cfg_text=cfg(constants=c, invariants=["MechRefines"]), workers=1, allow_violation=True, coverage=False)
         if "MechRefines" not in r.violated:
@@ -700,7 +911,7 @@ def _run(ctx, T, only):
 
     mech_pool, mech_futs = ThreadPoolExecutor(2), []        # runs beside the exports and the executions below
     if not only or "mech" in only:
-        mech_futs = [mech_pool.submit(selftest, "lossy_cover"), mech_pool.submit(selftest, "truncate_unsorted")]
+        mech_futs = [mech_pool.submit(selftest, dev) for dev in ("lossy_cover", "truncate_unsorted", "fastpath_strict")]
         mech_futs += [mech_pool.submit(mech, kind, consts) for consts in T["mech"] for kind in ("gc", "rs")]
     try:
         _conformance(ctx, T, only)
@@ -772,7 +983,9 @@ def _conformance(ctx, T, only):
                 "catalogue; plus %d seeded lives over the full lattices (414 rational-sphere points; clustered / micro / "
                 "spread great-circle families; up to %d points per set); each life executed under 1-2 concretisations drawn "
                 "from 8 great circles x eps / 8 octahedral images, depths %s (bounded by the intersection cost for large "
-                "radii), Matcher / one-shot, 5 array layouts, memory / file; a case is distinct by (abstract life, "
+                "radii), Matcher / one-shot, 6 array representations, memory / file, tie-snapped radii, shared work "
+                "buffers; lives with Overwrite events (caller overwrites the matcher's source arrays in place) exhaustive "
+                "over the tiny catalogue; a case is distinct by (abstract life, "
                 "concretisation) and non-trivial always (>= 1 point in each set)" %
                 ([j["num"] for j in T["jobs"] if j["num"]][0], T["seeded"], T["seeded_n"], T["depths"]))
     ctx.exhaustive = True
@@ -789,52 +1002,70 @@ def _conformance(ctx, T, only):
         "depth independence for radii above ~1 degree is exercised only at the depths whose intersection lists stay below the "
         "cost budget (depth <= 5..8 for radii of 90..180 degrees)",
         "off both lattices only relations between implementation outputs are compared (no oracle in general position)",
-        "maxmatch <= 0 means all (documented); array sizes that disagree are outside the statement"]
+        "maxmatch <= 0 means all (documented); array sizes that disagree are outside the statement",
+        "whether a pair exactly on the radius is returned stays open, except bit-identical points at radius 0 (d = 0 <= 0); "
+        "'the k closest pairs of each group' is read against the unlimited answer of the same matcher on the same inputs",
+        "float32 inputs only where every coordinate is exactly representable (the lattice oracle needs exact inputs)"]
 
 
-def find_probe(lives, results):
+def find_probe(lives, results, probe):
+    """probe["all"]: an accepted-looking in-memory unlimited call with >= 2 pairs (to corrupt);
+    probe["lim"]: a maxmatch=1 call that really truncates, with its unlimited twin"""
     for r in results:
-        if lives[r["lid"]]["kind"] != "gc":
+        life = lives[r["lid"]]
+        if life["kind"] != "gc":
             continue
         for n, c in enumerate(r["calls"]):
-            # odd half-steps: no pair of this call can lie exactly on the radius, so a dropped pair is a missing pair
-            if c["err"] == "none" and c["via"] == "mem" and len(c["m1"]) >= 2 and all(x["on"] for x in c["d"]) and \
-                    c["k"] <= 0 and all(rr[1] % 2 == 1 for rr in c["rad"]):
-                return (lives[r["lid"]], r, n)
-    return None
+            odd = all(rr[1] % 2 == 1 for rr in c["rad"])     # odd half-steps: no pair of the call lies on the radius
+            if c["err"] != "none" or c["via"] != "mem" or not odd or not all(x["on"] for x in c["d"]):
+                continue
+            if "all" not in probe and c["k"] <= 0 and len(c["m1"]) >= 2:
+                probe["all"] = (life, r, n)
+            if "lim" not in probe and c["k"] == 1 and c["hasall"] and len(c["all1"]) > len(c["m1"]) >= 1:
+                probe["lim"] = (life, r, n)
+        if len(probe) == 2:
+            return
 
 
 def selftest_binding(ctx, probe):
-    if not probe:
-        raise MachineryError("binding self-test: no accepted call with >= 2 pairs to corrupt")
-    life, r, n = probe
+    if "all" not in probe or "lim" not in probe:
+        raise MachineryError("binding self-test: no executed unlimited call with >= 2 pairs / no truncating maxmatch=1 call")
+    life, r, n = probe["all"]
+    life2, r2, nl = probe["lim"]
 
-    def rec(i, calls):
-        return {"id": i, "kind": life["kind"], "p2": life["p2"], "calls": calls}
+    def rec(i, calls, lf=None):
+        lf = lf or life
+        return {"id": i, "kind": lf["kind"], "p2": lf["p2"], "ident": bool(lf.get("ident", True)), "calls": calls}
 
-    def mutate(fn):
-        calls = json.loads(json.dumps(r["calls"]))
-        fn(calls[n])
+    def mutate(fn, src=None, at=None):
+        calls = json.loads(json.dumps((src or r)["calls"]))
+        fn(calls[n if at is None else at])
         return calls
+
+    def drop_first_of_unlimited(c):       # the twin now starts with the second-closest pair: the limited result is no prefix
+        g = c["m1"][0]
+        t = c["all1"].index(g)
+        del c["all1"][t], c["all2"][t]
     probes = [rec(1, r["calls"]),
               rec(2, mutate(lambda c: (c["m1"].pop(), c["m2"].pop(), c["d"].pop()))),          # a pair dropped
               rec(3, mutate(lambda c: c["d"][0].update(v=[c["d"][0]["v"][0] + 1, c["d"][0]["v"][1]]))),   # wrong separation
               rec(4, mutate(lambda c: (c["m1"].append(c["m1"][-1]), c["m2"].append(c["m2"][-1]), c["d"].append(c["d"][-1])))),
               rec(5, mutate(lambda c: (c["m1"].reverse(), c["m2"].reverse(), c["d"].reverse())))
-              if len(set(r["calls"][n]["m1"])) > 1 else rec(5, mutate(lambda c: c.update(err="ValueError")))]
+              if len(set(r["calls"][n]["m1"])) > 1 else rec(5, mutate(lambda c: c.update(err="ValueError"))),
+              rec(6, mutate(drop_first_of_unlimited, src=r2, at=nl), life2), rec(7, r2["calls"], life2)]
     saved = ctx.traces
     rej = tracecheck.validate(ctx, "HtmMatchTrace.tla", probes, what="self-test: corrupted records rejected", workers=1)
     ctx.traces = saved
-    want = {2: "missing_pair", 3: "separation", 4: "pair_repeated"}
-    for i, w in want.items():
-        if i not in rej or not any(cl.startswith(w) and nn == n + 1 for nn, cl in (tuple(x) for x in rej[i])):
+    want = {2: ("missing_pair", n), 3: ("separation", n), 4: ("pair_repeated", n), 6: ("limited_not_prefix_of_unlimited", nl)}
+    for i, (w, at) in want.items():
+        if i not in rej or not any(cl.startswith(w) and nn == at + 1 for nn, cl in (tuple(x) for x in rej[i])):
             raise MachineryError("binding self-test failed: probe %d (%s) gave %s" % (i, w, rej.get(i)))
     if 5 not in rej:
         raise MachineryError("binding self-test failed: probe 5 not rejected")
-    if 1 in rej:
-        # the untouched record may only be rejected if the real run rejected it too (then a violation is already reported)
+    if 1 in rej or 7 in rej:
+        # an untouched record may only be rejected if the real run rejected it too (then a violation is already reported)
         if not any(v[0].startswith("match") for v in ctx.violations):
-            raise MachineryError("binding self-test failed: untouched record rejected: %s" % rej[1])
+            raise MachineryError("binding self-test failed: untouched record rejected: %s %s" % (rej.get(1), rej.get(7)))
 
 
 # ---------------------------------------------------------------------------------
@@ -842,7 +1073,7 @@ def replay(ctx, case):
     _tmpfile("init")
     try:
         if case.get("kind") == "offlattice":
-            res = off_relations({k: v for k, v in case.items() if k not in ("relation", "depth", "other_depth", "error", "group")})
+            res = off_relations({k: v for k, v in case.items() if k not in ("relation", "depth", "other_depth", "error", "group", "flavour", "limit")})
             print("replay observed:", {k: v for k, v in res.items() if k in ("ok", "relation", "depth", "error", "npairs")})
             if not res.get("ok"):
                 ctx.violation("match|%s|offlattice" % res["relation"], "relation %s broken on replay" % res["relation"], case)
